@@ -134,6 +134,42 @@ def _shift(s, o, sign):
     return None
 
 
+class Rounded:
+    """round(x, n) of a symbolic linear value.  Usable as a key or printed: two rounded values are equal when they fall in the
+    same rounding cell (floor(x * 10^n + 1/2); ties-to-even at exact half-way points is outside the model), decided by the
+    solver on the current path - a fork when both are possible.  All share one hash so dictionaries fall through to __eq__."""
+    def __init__(s, x, n):
+        s.x, s.n = x, int(n)
+
+    def _cell(s):
+        return z3.ToInt(s.x.e.term() * (10 ** s.n) + z3.RealVal("1/2"))
+
+    def __hash__(s):
+        return hash(("rounded", s.n))
+
+    def __eq__(s, o):
+        if isinstance(o, Rounded):
+            if o.n != s.n:
+                return False
+            if o.x.e.key() == s.x.e.key():
+                return True
+            from .ctx import CTX
+            return CTX.decide(s._cell() == o._cell())
+        if isinstance(o, (int, float, Fraction)):
+            from .ctx import CTX
+            return CTX.decide(s._cell() == z3.ToInt(z3.RealVal(str(Fraction(o).limit_denominator(10 ** 12))) * (10 ** s.n) + z3.RealVal("1/2")))
+        return False
+
+    def __ne__(s, o):
+        return not s.__eq__(o)
+
+    def __repr__(s):
+        return f"round({s.x!r}, {s.n})"
+
+    def __format__(s, spec):
+        return repr(s)
+
+
 class Lin:
     __slots__ = ("e", "shift")
 
@@ -246,7 +282,7 @@ class Lin:
     def __round__(s, n=None):
         if s.e.is_const():
             return round(float(s.e.c), n)
-        return s
+        return Rounded(s, n or 0)
 
     # numpy calls these methods for object arrays
     def log(s):
